@@ -816,6 +816,16 @@ def ddl_oracle(ctx, spec, src, dialect, res, decls):
         for nm in want:
             if nm not in idents:
                 ctx.violation('%s DDL does not mention schema object %r' % (dialect, nm), inp, observed=sorted(idents)[:20], expected=nm, key='ddl-missing-object')
+    # a link-table foreign key named by `fk_name=` of a Set attribute is the one on that attribute's own columns
+    for e in decls:
+        for a in e['attrs']:
+            if a['kind'] == 'set' and a['fkName'] and a['target']:
+                post = next((x for x in res['attrs'] if x['entity'] == e['name'] and x['attr'] == a['name']), None)
+                for t in real['tables']:
+                    for f in t['fks']:
+                        if f['name'] == a['fkName'] and post and t['name'] == post['table'] and f['cols'] != post['columns']:
+                            ctx.violation('fk_name=%r of a Set attribute names the foreign key on the wrong link columns (%s)' % (a['fkName'], dialect),
+                                          dict(inp, attr=e['name'] + '.' + a['name']), observed=f['cols'], expected=post['columns'], key='m2m-fk_name-on-wrong-columns')
     # declared constraint names are the ones emitted (the entity model names them)
     for e in decls:
         for a in e['attrs']:
@@ -886,9 +896,31 @@ FIXED = [
      "class Node(db.Entity):\n    _table_ = 'Graph'\n    inc = Set('Node', reverse='out', table='Graph')\n    out = Set('Node', reverse='inc')\n"),
     ('self-m2m-table-on-later-attribute-no-collision',
      "class Node(db.Entity):\n    inc = Set('Node', reverse='out')\n    out = Set('Node', reverse='inc', table='Edges')\n"),
+    ('m2m-fk-names-and-indexes-on-both-sides',
+     "class Alpha(db.Entity):\n    betas = Set('Beta', fk_name='fk_to_beta', index='ix_to_beta', column='beta_ref')\n"
+     "class Beta(db.Entity):\n    alphas = Set(Alpha, fk_name='fk_to_alpha', index='ix_to_alpha', column='alpha_ref')\n"),
+    ('self-m2m-fk-names', "class Node(db.Entity):\n    inc = Set('Node', reverse='out', fk_name='fk_inc')\n    out = Set('Node', reverse='inc', fk_name='fk_out')\n"),
+    ('one-to-one-custom-column-on-later-side',
+     "class Alpha(db.Entity):\n    beta = Optional('Beta')\nclass Beta(db.Entity):\n    alpha = Optional(Alpha, column='alpha_ref', fk_name='fk_beta_alpha')\n"),
+    ('one-to-one-required-and-self',
+     "class Alpha(db.Entity):\n    beta = Required('Beta')\n    prev = Optional('Alpha', reverse='next')\n    next = Optional('Alpha', reverse='prev')\n"
+     "class Beta(db.Entity):\n    alpha = Optional(Alpha)\n"),
     ('symmetric-m2m-table-collides-with-other-link-table',
      "class Node(db.Entity):\n    peers = Set('Node', reverse='peers', table='Edges')\n    inc = Set('Node', reverse='out')\n    out = Set('Node', reverse='inc', table='Edges')\n"),
 ]
+
+def one_to_one_oracle(ctx, dialect, src, res):
+    """accepted mapping: a one-to-one relationship is stored on at least one side. (Both sides holding columns is a
+    supported configuration, pinned by pony/orm/tests/test_relations_one2one2.py and test_mapping.test_relations4.)"""
+    db = res['db']
+    for entity in db.entities.values():
+        for a in entity._new_attrs_:
+            r = a.reverse
+            if a.is_collection or not r or r.is_collection: continue
+            ctx.count('one-to-one:' + ('both sides stored' if a.columns and r.columns else 'one side stored' if a.columns or r.columns else 'NOT stored'))
+            if not a.columns and not r.columns:
+                ctx.violation('one-to-one relationship %r - %r is accepted but stored on neither side (no column, no foreign key)' % (a, r),
+                              {'source': src, 'dialect': dialect}, observed=[list(a.columns), list(r.columns)], expected='columns on at least one side', key='one-to-one-not-stored')
 
 def declared_tables_oracle(ctx, dialect, src, res):
     """accepted mapping: the link table of a many-to-many pair IS the declared `table=` (given on either side); hence a
@@ -965,6 +997,7 @@ def diagrams(ctx):
                                 ctx.divergence('model tags an over-long name as normalised', [dialect, src, nm])
         if 'ok' in out:
             if res['linked']: declared_tables_oracle(ctx, dialect, src, res)
+            one_to_one_oracle(ctx, dialect, src, res)
             if dialect == 'sqlite': sqlite_oracle(ctx, spec, src, res, model_ok)
             else: ddl_oracle(ctx, spec, src, dialect, res, res['decls'])
         else:
@@ -1077,6 +1110,7 @@ def replay(ctx, data):
         ctx.case(['replay', dialect, src], kind='replay')
         if 'ok' in res.get('outcome', {}):
             if res['linked']: declared_tables_oracle(ctx, dialect, src, res)
+            one_to_one_oracle(ctx, dialect, src, res)
             if dialect == 'sqlite': sqlite_oracle(ctx, None, src, res, None)
             else: ddl_oracle(ctx, None, src, dialect, res, res['decls'])
     else:
